@@ -2,6 +2,8 @@
 from pyvc.cdef import Contract, LoopSpec
 
 CAL = ('rec', ['SplineCalibrator', 'PolynomialCalibrator'])
+PKT_VALUES = ('mobj', 'CCSDSPacket', {'__items__': ('odict', {'kinds': ['IntParameter', 'FloatParameter', 'StrParameter'],
+                                                            'rawkinds': ['int', 'real', 'str']})})
 SCHEMA = {
     'BinaryDataEncoding': {},
     'StringDataEncoding': {'encoding': 'str'},
@@ -237,9 +239,79 @@ def _build_numeric(r):
 
 _NUM_REF = 'ref_numeric_parse(self, packet, old(packet.raw_data.pos))'
 
+CTXS = 'self.context_calibrators'
+RAW = 'result.raw_value'
+NOCTX = f'(is_none({CTXS}) or no_ctx_match(self, packet, {RAW}, len({CTXS})))'
+
 CONTRACTS += [
     Contract(
+        target='xtce.encodings.FloatDataEncoding._get_raw_value',
+        props=['C04', 'C08', 'C14', 'C01'],
+        params={'self': ('rec', 'FloatDataEncoding'), 'packet': PKT},
+        returns='real',
+        requires=['self.size_in_bits >= 1', 'packet.raw_data.pos >= 0'],
+        ensures={
+            'value': ('result == float_field(self, tb(bits(packet.raw_data, old(packet.raw_data.pos), self.size_in_bits), '
+                      'ceil8(self.size_in_bits)))'),
+            'cursor': 'packet.raw_data.pos == old(packet.raw_data.pos) + self.size_in_bits',
+        },
+        raises={'ValueError': 'packet.raw_data.pos + self.size_in_bits > 8 * len(packet.raw_data)'},
+        modifies=['packet.raw_data.pos'],
+        native_only=('the parsing closure is selected in __init__ and stored on the instance (parse_func); the IEEE decoding '
+                     'itself is struct.unpack (E2). The contract is ASSUMED by the proof of parse_value and checked by the '
+                     'bounded stand-in (NumericDataEncoding.parse_value native contract covers the float patterns)'),
+    ),
+    Contract(
         target='xtce.encodings.NumericDataEncoding.parse_value',
+        props=['C04', 'C08', 'C01'],
+        params={'packet': PKT_VALUES},
+        variants={'integer': {'params': {'self': ('rec', 'IntegerDataEncoding')},
+                              'requires': [INT_ENCODINGS]},
+                  'float': {'params': {'self': ('rec', 'FloatDataEncoding')}}},
+        returns=('pval', ['IntParameter', 'FloatParameter']),
+        requires=['self.size_in_bits >= 1', 'packet.raw_data.pos >= 0',
+                  # shape invariants of the calibrators hanging off the encoding
+                  ('is_none(self.default_calibrator) or cal_ok(self.default_calibrator)', ['__proof__']),
+                  (f'is_none({CTXS}) or forall(lambda k: cal_ok(at({CTXS}, k).calibrator), 0, len({CTXS}))', ['__proof__']),
+                  ('packet.raw_data.pos + self.size_in_bits <= 8 * len(packet.raw_data)', ['__native__'])],
+        loops={('', 0): LoopSpec(invariants={
+            'no_earlier_match': f'no_ctx_match(self, packet, parsed_value, _i)'},
+            hints=[f'implies(_i < len({CTXS}), ctx_match_def(at({CTXS}, _i), packet, parsed_value))'])},
+        comps={0: {'elem': 'sem_crit(at(match_criteria, j), packet, parsed_value)',
+                   'may_raise': ['ComparisonError', 'ValueError', 'KeyError', 'TypeError']}},
+        ensures={
+            # C08 (PROVED): the FIRST context calibrator whose criteria all hold, applied to the raw value ...
+            'first_context_match': (
+                f'is_none({CTXS}) or forall(lambda i: implies(ctx_match(at({CTXS}, i), packet, {RAW}) and '
+                f'no_ctx_match(self, packet, {RAW}, i), '
+                f'is_calibration(at({CTXS}, i).calibrator, toreal({RAW}), result) and cls_is(result, "FloatParameter")), '
+                f'0, len({CTXS}))', ['__proof__']),
+            # ... otherwise the default calibrator ...
+            'default': (f'implies({NOCTX} and not is_none(self.default_calibrator), '
+                        f'is_calibration(self.default_calibrator, toreal({RAW}), result) and cls_is(result, "FloatParameter"))',
+                        ['__proof__']),
+            # ... otherwise the raw value itself, as an int for integer encodings and a float for float encodings (C04)
+            'uncalibrated': (f'implies({NOCTX} and is_none(self.default_calibrator), result == {RAW} and '
+                             'cls_is(result, "IntParameter" if cls_is(self, "IntegerDataEncoding") else "FloatParameter"))',
+                             ['__proof__']),
+            'cursor': ('packet.raw_data.pos == old(packet.raw_data.pos) + self.size_in_bits', ['__proof__']),
+            # native: value, raw value and class against the exact-rational reference decoder
+            'value_exact': (f'numeric_matches(result, {_NUM_REF})', ['__native__']),
+            'cursor_exact': (f'packet.raw_data.pos == {_NUM_REF}[3]', ['__native__']),
+        },
+        raises={'CalibrationError': ("outcome(ref_numeric_parse(self, packet, packet.raw_data.pos)) == 'CalibrationError'", ['__native__']),
+                'ComparisonError': ("outcome(ref_numeric_parse(self, packet, packet.raw_data.pos)) == 'ComparisonError'", ['__native__']),
+                'ValueError': ("outcome(ref_numeric_parse(self, packet, packet.raw_data.pos)) == 'ValueError'", ['__native__'])},
+        may_raise={'CalibrationError': ('True', ['__proof__']), 'ComparisonError': ('True', ['__proof__']),
+                   'ValueError': ('True', ['__proof__']), 'KeyError': ('True', ['__proof__']), 'TypeError': ('True', ['__proof__'])},
+        modifies=['packet.raw_data.pos'],
+        native={'gen': _gen_numeric, 'build': _build_numeric},
+    ),
+]
+
+_OLD_PARSE_VALUE = [
+    Contract(
+        target='__superseded__.NumericDataEncoding.parse_value',
         props=['C04', 'C08', 'C01'],
         params={}, native_only=PENDING,
         requires=['self.size_in_bits >= 1', 'packet.raw_data.pos >= 0',
